@@ -1123,3 +1123,53 @@ func canonRenamedTypes(s string) string {
 	}
 	return s
 }
+
+// ---- external APIs of stateful packages ----
+
+// statefulPkgs: packages whose objects carry state that the module's properties depend on; the contracts (and the
+// prelude) only speak about the functions of these packages that the pinned source calls.
+var statefulPkgs = []string{"github.com/gorilla/websocket", "net/http", "net", "encoding/json", "time", "context", "container/list", "os"}
+
+func statefulExternal(f *ssa.Function) bool {
+	if f == nil || f.Pkg == nil {
+		return false
+	}
+	p := f.Pkg.Pkg.Path()
+	for _, s := range statefulPkgs {
+		if p == s {
+			return true
+		}
+	}
+	return false
+}
+
+// collectExtCalls: every function of a stateful external package that the module calls (statically or as a method
+// value), by full name.
+func collectExtCalls(fns []*ssa.Function) map[string]bool {
+	out := map[string]bool{}
+	for _, f := range fns {
+		for _, b := range f.Blocks {
+			for _, in := range b.Instrs {
+				for _, op := range in.Operands(nil) {
+					if op == nil || *op == nil {
+						continue
+					}
+					if g, ok := (*op).(*ssa.Function); ok && statefulExternal(g) {
+						out[g.String()] = true
+					}
+				}
+				if ci, ok := in.(ssa.CallInstruction); ok && ci.Common().IsInvoke() {
+					m := ci.Common().Method
+					if m.Pkg() != nil {
+						for _, s := range statefulPkgs {
+							if m.Pkg().Path() == s {
+								out["invoke:"+m.FullName()] = true
+							}
+						}
+					}
+				}
+			}
+		}
+	}
+	return out
+}
